@@ -4,6 +4,7 @@ import (
 	"bytes"
 	"context"
 	"encoding/binary"
+	"errors"
 	"fmt"
 	"math/rand"
 	"os"
@@ -14,6 +15,7 @@ import (
 	coreda "github.com/evstack/ev-node/core/da"
 
 	"verif/harness/doubles/crashds"
+	"verif/harness/vgen"
 )
 
 // ---- DA-ingress scenarios: the REAL RetrieveLoop + SyncLoop on a scripted DA layer ------------------
@@ -26,7 +28,9 @@ import (
 // here: C09 models the scan).
 
 // SimDA: blobs per DA height; heights above Max are "from the future".  While Gated, every GetIDs
-// waits for a token, so the scenario decides how far the scan has got.
+// waits for a token, so the scenario decides how far the scan has got.  Faults: per DA height the outcomes the
+// layer gives to the successive requests for that height (one per GetIDs call; when the script is used up the
+// height is served normally).  Every request served is recorded in Reqs.
 type SimDA struct {
 	coreda.DA
 	Blobs map[uint64][][]byte
@@ -34,6 +38,80 @@ type SimDA struct {
 	Gated bool
 	Gate  chan struct{}
 	Calls []uint64
+	// fault scripts
+	Faults  map[uint64][]DAFault
+	pos     map[uint64]int
+	pendGet map[uint64]int // class+1 of the error the next Get for that height returns
+	Reqs    []DAReq
+}
+
+// DAFault is the outcome of one request for a DA height.  Site "ids": GetIDs returns an error of class Class;
+// "get": GetIDs lists the ids, the Get call for them returns the error; "hang": GetIDs does not answer until the
+// request's own context ends (the 30 s dAefetcherTimeout of fetchBlobs) and returns that context's error.
+type DAFault struct {
+	Site  string `json:"site"`
+	Class int    `json:"class"`
+}
+
+// error classes of a DA request (Model/DAIngress.v derr, in this order)
+const (
+	DAErrGeneric = iota
+	DAErrDeadlineCtx
+	DAErrDeadlineDA
+	DAErrCanceledCtx
+	DAErrCanceledDA
+	DAErrFuture
+	DAErrNotFound
+	NumDAErrClasses
+)
+
+var daErrCoq = []string{"EGeneric", "EDeadlineCtx", "EDeadlineDA", "ECanceledCtx", "ECanceledDA", "EFuture", "ENotFound"}
+var daErrName = []string{"generic", "context.DeadlineExceeded", "coreda.ErrContextDeadline", "context.Canceled", "coreda.ErrContextCanceled", "coreda.ErrHeightFromFuture", "coreda.ErrBlobNotFound"}
+
+// daErr builds an error of the class the way a DA client hands it back (wrapped in the client's own text).
+func daErr(class int) error {
+	switch class {
+	case DAErrDeadlineCtx:
+		return fmt.Errorf("sim: rpc call: %w", context.DeadlineExceeded)
+	case DAErrDeadlineDA:
+		return fmt.Errorf("sim: rpc call blob.GetAll: %w", coreda.ErrContextDeadline)
+	case DAErrCanceledCtx:
+		return fmt.Errorf("sim: rpc call: %w", context.Canceled)
+	case DAErrCanceledDA:
+		return fmt.Errorf("sim: rpc call blob.GetAll: %w", coreda.ErrContextCanceled)
+	case DAErrFuture:
+		return fmt.Errorf("sim: %w", coreda.ErrHeightFromFuture)
+	case DAErrNotFound:
+		return fmt.Errorf("sim: %w", coreda.ErrBlobNotFound)
+	}
+	return errors.New("sim: connection reset by peer")
+}
+
+// DAReq: one request as the DA double served it.  Site "ok": the blobs; "ids"/"get": an error of class Class.
+type DAReq struct {
+	H     uint64
+	Site  string
+	Class int
+}
+
+func (q DAReq) coq() string {
+	switch q.Site {
+	case "ids":
+		return fmt.Sprintf("(%d, OIds %s)", q.H, daErrCoq[q.Class])
+	case "get":
+		return fmt.Sprintf("(%d, OGet %s)", q.H, daErrCoq[q.Class])
+	}
+	return fmt.Sprintf("(%d, OOk)", q.H)
+}
+
+// Pending: some height the scan has not passed yet (and that exists) still has scripted outcomes to serve.
+func (d *SimDA) Pending(cur uint64) bool {
+	for h, sc := range d.Faults {
+		if h >= cur && h <= d.Max && d.pos[h] < len(sc) {
+			return true
+		}
+	}
+	return false
 }
 
 func (d *SimDA) GetIDs(ctx context.Context, h uint64, ns []byte) (*coreda.GetIDsResult, error) {
@@ -46,12 +124,41 @@ func (d *SimDA) GetIDs(ctx context.Context, h uint64, ns []byte) (*coreda.GetIDs
 	}
 	d.Calls = append(d.Calls, h)
 	if h > d.Max {
+		d.Reqs = append(d.Reqs, DAReq{h, "ids", DAErrFuture})
 		return nil, fmt.Errorf("sim: %w", coreda.ErrHeightFromFuture)
 	}
 	bs := d.Blobs[h]
+	if sc := d.Faults[h]; d.pos[h] < len(sc) {
+		if d.pos == nil {
+			d.pos, d.pendGet = map[uint64]int{}, map[uint64]int{}
+		}
+		f := sc[d.pos[h]]
+		d.pos[h]++
+		switch f.Site {
+		case "ids":
+			d.Reqs = append(d.Reqs, DAReq{h, "ids", f.Class})
+			return nil, daErr(f.Class)
+		case "hang":
+			d.Reqs = append(d.Reqs, DAReq{h, "ids", DAErrDeadlineCtx})
+			<-ctx.Done()
+			return nil, ctx.Err()
+		case "get":
+			if len(bs) > 0 {
+				d.Reqs = append(d.Reqs, DAReq{h, "get", f.Class})
+				d.pendGet[h] = f.Class + 1
+				return d.ids(h, bs), nil
+			}
+		}
+	}
 	if len(bs) == 0 {
+		d.Reqs = append(d.Reqs, DAReq{h, "ids", DAErrNotFound})
 		return nil, fmt.Errorf("sim: %w", coreda.ErrBlobNotFound)
 	}
+	d.Reqs = append(d.Reqs, DAReq{h, "ok", 0})
+	return d.ids(h, bs), nil
+}
+
+func (d *SimDA) ids(h uint64, bs [][]byte) *coreda.GetIDsResult {
 	ids := make([][]byte, len(bs))
 	for i := range bs {
 		id := make([]byte, 12)
@@ -59,10 +166,17 @@ func (d *SimDA) GetIDs(ctx context.Context, h uint64, ns []byte) (*coreda.GetIDs
 		binary.BigEndian.PutUint32(id[8:], uint32(i))
 		ids[i] = id
 	}
-	return &coreda.GetIDsResult{IDs: ids, Timestamp: GenesisTime}, nil
+	return &coreda.GetIDsResult{IDs: ids, Timestamp: GenesisTime}
 }
 
 func (d *SimDA) Get(ctx context.Context, ids []coreda.ID, ns []byte) ([]coreda.Blob, error) {
+	if len(ids) > 0 {
+		h := binary.BigEndian.Uint64(ids[0])
+		if c := d.pendGet[h]; c > 0 {
+			delete(d.pendGet, h)
+			return nil, daErr(c - 1)
+		}
+	}
 	var out [][]byte
 	for _, id := range ids {
 		h := binary.BigEndian.Uint64(id)
@@ -96,6 +210,9 @@ type DAScenario struct {
 	// over every copy until SyncLoop has marked the header seen) — with SyncLoop held inside a commit the
 	// ingress channel is full when the retriever reaches the blobs behind them, and it has to wait
 	Backlog int `json:"backlog,omitempty"`
+	// Faults: per DA height the outcomes of the successive requests for it (errors of every class at GetIDs or at
+	// Get, requests that hang until their deadline); afterwards the height is served normally
+	Faults map[uint64][]DAFault `json:"faults,omitempty"`
 }
 
 type DAResult struct {
@@ -104,6 +221,23 @@ type DAResult struct {
 	HeightEnd   uint64
 	StoppedAt   bool // the stop hook fired at a commit
 	StateDAStop uint64
+	// for Check/DAIngressCheck.v
+	Chain   *Chain
+	Content map[uint64][]string // DA height -> parts (Coq terms) in DA order
+	Procs   []DAProc
+	// statistics
+	FaultsServed map[string]int // "site:class" -> requests answered that way
+	Rounds       int            // retrieve rounds (DA ticks) the scenario waited through
+}
+
+// DAProc: what one process of the node did, for the comparison with Model/DAIngress.v
+type DAProc struct {
+	C0, H0    uint64
+	Reqs      []DAReq
+	P2P       []Item
+	Quiescent bool
+	Cursor    uint64
+	Height    uint64
 }
 
 func (n *Node) kickRetriever() {
@@ -129,7 +263,7 @@ func (n *Node) p2p(c *Chain, it Item) {
 
 // RunDAScenario drives one scenario in its own bubble.
 func RunDAScenario(t *testing.T, c *Chain, sc DAScenario, tmp string) *DAResult {
-	res := &DAResult{}
+	res := &DAResult{Chain: c, Content: map[uint64][]string{}, FaultsServed: map[string]int{}}
 	fail := func(sig, what string) {
 		for _, v := range res.Viol {
 			if v.Sig == sig {
@@ -144,7 +278,7 @@ func RunDAScenario(t *testing.T, c *Chain, sc DAScenario, tmp string) *DAResult 
 	}
 	defer os.RemoveAll(dir)
 	synctest.Test(t, func(t *testing.T) {
-		da := &SimDA{Blobs: map[uint64][][]byte{}, Gated: true, Gate: make(chan struct{})}
+		da := &SimDA{Blobs: map[uint64][][]byte{}, Gated: true, Gate: make(chan struct{}), Faults: sc.Faults}
 		for i := range c.Headers {
 			if h := sc.HdrDA[i]; h > 0 {
 				da.Blobs[h] = append(da.Blobs[h], c.HeaderBlobs[i])
@@ -183,12 +317,72 @@ func RunDAScenario(t *testing.T, c *Chain, sc DAScenario, tmp string) *DAResult 
 			}
 			da.Blobs[h] = append(copies, da.Blobs[h]...)
 		}
+		// the DA layer's content as parts of the chain (Model/DAIngress.v part)
+		partOf := map[string]string{}
+		for i := range c.Headers {
+			partOf[string(c.HeaderBlobs[i])] = fmt.Sprintf("PH %d", i)
+			if c.DataBlobs[i] != nil {
+				partOf[string(c.DataBlobs[i])] = fmt.Sprintf("PD %d", i)
+			}
+		}
+		for h, bs := range da.Blobs {
+			for _, b := range bs {
+				res.Content[h] = append(res.Content[h], partOf[string(b)])
+			}
+		}
+		// per process: the requests served, the parts delivered by P2P while SyncLoop ran
+		var proc *DAProc
+		startProc := func() {
+			da.Reqs = nil
+			proc = &DAProc{C0: n.M.VerifDAHeight(), H0: n.Height()}
+		}
+		endProc := func(quiescent bool) {
+			n.settle()
+			proc.Reqs = append([]DAReq{}, da.Reqs...)
+			proc.Quiescent = quiescent && !n.Dead
+			proc.Cursor, proc.Height = n.M.VerifDAHeight(), n.Height()
+			for _, q := range proc.Reqs {
+				if q.Site != "ok" && !(q.Site == "ids" && (q.Class == DAErrNotFound && len(da.Blobs[q.H]) == 0 || q.Class == DAErrFuture && q.H > da.Max)) {
+					res.FaultsServed[q.Site+":"+daErrName[q.Class]]++
+				}
+			}
+			res.Procs = append(res.Procs, *proc)
+		}
+		p2p := func(it Item) {
+			n.settle()
+			if n.M != nil && !n.Dead {
+				proc.P2P = append(proc.P2P, it)
+			}
+			n.p2p(c, it)
+		}
+		// run on until nothing moves any more: the scripted outcomes of the heights the scan still has to pass are
+		// used up (every DA tick starts a round of up to 10 attempts) and three further rounds changed nothing
+		settleScan := func(min int) bool {
+			calm := 0
+			for r := 0; r < 200 && calm < min && !hook.Stopped; r++ {
+				select {
+				case da.Gate <- struct{}{}:
+				default:
+				}
+				n.kickRetriever()
+				time.Sleep(7 * time.Second)
+				synctest.Wait()
+				res.Rounds++
+				if da.Pending(n.M.VerifDAHeight()) {
+					calm = 0
+				} else {
+					calm++
+				}
+			}
+			return calm >= min
+		}
 		// ---- first process
+		startProc()
 		if sc.HoldAt > 0 {
 			hook.HoldAt = c.Initial + uint64(sc.HoldAt) - 1
 		}
 		for _, it := range sc.P2PFirst {
-			n.p2p(c, it)
+			p2p(it)
 		}
 		n.kickRetriever()
 		synctest.Wait()
@@ -206,7 +400,7 @@ func RunDAScenario(t *testing.T, c *Chain, sc DAScenario, tmp string) *DAResult 
 			synctest.Wait()
 		}
 		for _, it := range sc.P2PThen {
-			n.p2p(c, it)
+			p2p(it)
 		}
 		if sc.StopAt > 0 {
 			hook.StopAt = c.Initial + uint64(sc.StopAt) - 1
@@ -215,23 +409,54 @@ func RunDAScenario(t *testing.T, c *Chain, sc DAScenario, tmp string) *DAResult 
 			hook.Release <- struct{}{}
 		}
 		synctest.Wait()
+		quiet := false
 		if !hook.Stopped {
 			// no stop at a commit: let the scan run on to quiescence (or to the stop hook)
 			da.Gated = false
-			for r := 0; r < 3 && !hook.Stopped; r++ {
-				select {
-				case da.Gate <- struct{}{}:
-				default:
-				}
-				n.kickRetriever()
-				time.Sleep(7 * time.Second)
-				synctest.Wait()
-			}
+			quiet = settleScan(3)
 		}
 		res.StoppedAt = hook.Stopped
+		endProc(quiet && !hook.Stopped)
 		if sc.Backlog > 0 && !hook.Stopped && !n.Dead && n.Height() < top {
 			fail("da-ingress-backlog-dropped", fmt.Sprintf("every header and data of the chain is on the DA layer (the DA height of one header also carries %d re-submitted copies of it); the first process scanned the whole DA layer and ran to quiescence but stays at height %d, proposer's height %d",
 				cap(n.M.VerifHeaderInCh()), n.Height(), top))
+		}
+		// the property on the first process, evaluated directly: the scan has been through every DA height that
+		// exists, every request that failed has been repeated until it was answered; every block whose header and
+		// (if not empty) data lie on the DA layer — at a height the layer did not deny — or came by P2P must be applied
+		if quiet && !hook.Stopped && !n.Dead {
+			denied := map[uint64]bool{}
+			for _, q := range proc.Reqs {
+				if q.Site == "ids" && q.Class == DAErrNotFound && len(da.Blobs[q.H]) > 0 {
+					denied[q.H] = true
+				}
+			}
+			gotH, gotD := map[int]bool{}, map[int]bool{}
+			for _, it := range proc.P2P {
+				if it.T == "h" {
+					gotH[it.I] = true
+				} else {
+					gotD[it.I] = true
+				}
+			}
+			m := 0
+			for ; m < len(c.Headers); m++ {
+				okH := gotH[m] || (sc.HdrDA[m] > 0 && !denied[sc.HdrDA[m]])
+				okD := len(c.Datas[m].Txs) == 0 || gotD[m] || (sc.DataDA[m] > 0 && !denied[sc.DataDA[m]])
+				if !okH || !okD {
+					break
+				}
+			}
+			if m > 0 && n.Height() < c.Initial+uint64(m)-1 {
+				var failed []string
+				for _, q := range proc.Reqs {
+					if q.Site != "ok" && q.H <= da.Max && len(da.Blobs[q.H]) > 0 {
+						failed = append(failed, fmt.Sprintf("DA height %d: %s at %s", q.H, daErrName[q.Class], map[string]string{"ids": "GetIDs", "get": "Get"}[q.Site]))
+					}
+				}
+				fail("da-ingress-height-skipped", fmt.Sprintf("header and data of every block up to height %d lie on the DA layer (or came by P2P) and the scan has been through every DA height that exists (scan position %d, DA tip %d), but the node stays at height %d; requests for DA heights that carry blobs which came back with an error: %v",
+					c.Initial+uint64(m)-1, n.M.VerifDAHeight(), da.Max, n.Height(), failed))
+			}
 		}
 		n.Stop()
 		res.HeightStop = n.Height()
@@ -251,30 +476,38 @@ func RunDAScenario(t *testing.T, c *Chain, sc DAScenario, tmp string) *DAResult 
 			fail("boot-failed", n.BootErr.Error())
 			return
 		}
-		// P2P serves again everything above the node's height (Header/DataStoreRetrieveLoop start there)
+		startProc()
+		// P2P serves again everything above the node's height (Header/DataStoreRetrieveLoop start there); in a
+		// scenario whose DA layer denied a height that carries blobs (the scan went past it, and the position a new
+		// process starts from may lie above it) P2P serves every part
+		lied := false
+		for h, fs := range sc.Faults {
+			for _, f := range fs {
+				if f.Site == "ids" && f.Class == DAErrNotFound && len(da.Blobs[h]) > 0 {
+					lied = true
+				}
+			}
+		}
 		redeliver := func() {
 			for i := range c.Headers {
 				if c.Initial+uint64(i) <= n.Height() {
 					continue
 				}
-				if sc.HdrDA[i] == 0 {
-					n.p2p(c, Item{T: "h", I: i})
+				if sc.HdrDA[i] == 0 || lied {
+					p2p(Item{T: "h", I: i})
 				}
-				if sc.DataDA[i] == 0 && len(c.Datas[i].Txs) > 0 {
-					n.p2p(c, Item{T: "d", I: i})
+				if (sc.DataDA[i] == 0 || lied) && len(c.Datas[i].Txs) > 0 {
+					p2p(Item{T: "d", I: i})
 				}
 			}
 		}
 		redeliver()
-		for r := 0; r < 4; r++ {
-			n.kickRetriever()
-			time.Sleep(7 * time.Second)
-			synctest.Wait()
-		}
+		quiet = settleScan(4)
 		redeliver()
 		time.Sleep(7 * time.Second)
 		synctest.Wait()
 		res.HeightEnd = n.Height()
+		endProc(quiet)
 		if n.Dead {
 			fail("sync-loop-died", fmt.Sprintf("SyncLoop returned: %v", n.LoopErr))
 		}
@@ -302,6 +535,47 @@ func RunDAScenario(t *testing.T, c *Chain, sc DAScenario, tmp string) *DAResult 
 	})
 	return res
 }
+
+// CoqCase: the scenario as a Check.DAIngressCheck.dcase.
+func (r *DAResult) CoqCase() string {
+	c := r.Chain
+	var ne, ct, procs []string
+	for i, d := range c.Datas {
+		if len(d.Txs) > 0 {
+			ne = append(ne, fmt.Sprint(i))
+		}
+	}
+	var hs []uint64
+	for h := range r.Content {
+		hs = append(hs, h)
+	}
+	sortU64(hs)
+	for _, h := range hs {
+		ct = append(ct, fmt.Sprintf("(%d, %s)", h, vgen.List(r.Content[h])))
+	}
+	for _, p := range r.Procs {
+		var reqs, parts []string
+		for _, q := range p.Reqs {
+			reqs = append(reqs, q.coq())
+		}
+		for _, it := range p.P2P {
+			if it.T == "h" {
+				parts = append(parts, fmt.Sprintf("PH %d", it.I))
+			} else {
+				parts = append(parts, fmt.Sprintf("PD %d", it.I))
+			}
+		}
+		procs = append(procs, fmt.Sprintf("{| dp_c0 := %d; dp_h0 := %d; dp_reqs := %s; dp_p2p := %s; dp_quiescent := %s; dp_cursor := %d; dp_height := %d |}",
+			p.C0, p.H0, vgen.List(reqs), vgen.List(parts), vgen.Bool(p.Quiescent), p.Cursor, p.Height))
+	}
+	return fmt.Sprintf("{| dc_initial := %d; dc_len := %d; dc_nonempty := %s; dc_content := %s;\n dc_procs := %s |}",
+		c.Initial, len(c.Headers), vgen.List(ne), vgen.List(ct), vgen.List(procs))
+}
+
+// DABadCase: a scenario that produced no process record (boot failed): disagrees with every model (code 4).
+const DABadCase = "{| dc_initial := 1; dc_len := 0; dc_nonempty := []; dc_content := []; dc_procs := [{| dp_c0 := 0; dp_h0 := 0; dp_reqs := []; dp_p2p := []; dp_quiescent := false; dp_cursor := 0; dp_height := 9 |}] |}"
+
+const DACoqHeader = "From Coq Require Import String NArith ZArith List Bool.\nFrom Verif Require Import Base.KV Base.Keys Model.Types Model.Syncer Model.DAIngress Check.DAIngressCheck.\nOpen Scope N_scope."
 
 // GenDAScenario: chains of 3..6 blocks; every part is placed on a DA height in 1..K (several per height,
 // out of block order) or is P2P-only; the first process is biased to the pattern "SyncLoop busy in a
@@ -408,6 +682,93 @@ func GenDABacklog(r *rand.Rand) DAScenario {
 	sc.HoldAt = 1
 	sc.Scan = nb + 1
 	sc.Backlog = 2
+	sc.Crash = r.Intn(2) == 0
+	return sc
+}
+
+// GenDAFaults: the DA layer answers requests with ERRORS before it serves a height.  Chains of 3..6 blocks;
+// nearly every part lies on the DA layer at heights 1..K (several per height, out of block order, some heights
+// empty), a few parts come by P2P.  One to three DA heights — the first of them carries blobs — get a script of
+// 1..3 (sometimes 9..12: more than one round of 10 attempts) outcomes that the successive requests for the height
+// meet before it is served: an error at GetIDs or at Get of a class from the whole vocabulary (generic,
+// context.DeadlineExceeded, coreda.ErrContextDeadline, context.Canceled, coreda.ErrContextCanceled, height from
+// the future, not found), or a request that hangs until its own deadline.  The scenario number picks the class and
+// the site most outcomes of the scenario use, so that every combination occurs in every run.  Three of four
+// scenarios let the first process run on until nothing moves (it must then hold every block whose parts were
+// available); the others stop it right after a commit, cleanly or by a kill, and restart it.
+func GenDAFaults(r *rand.Rand, c int) DAScenario {
+	spec := GenChain(r, 5, false)
+	nb := 1 + len(spec.Blocks)
+	sc := DAScenario{Chain: spec, HdrDA: make([]uint64, nb), DataDA: make([]uint64, nb), Faults: map[uint64][]DAFault{}}
+	K := 3 + r.Intn(5)
+	var byP2P []Item
+	for i := 0; i < nb; i++ {
+		empty := i == 0 || len(spec.Blocks[i-1].Txs) == 0
+		if r.Intn(8) == 0 || (i == 0 && r.Intn(2) == 0) {
+			byP2P = append(byP2P, Item{T: "h", I: i})
+		} else {
+			sc.HdrDA[i] = uint64(1 + r.Intn(K))
+		}
+		if !empty {
+			if r.Intn(8) == 0 {
+				byP2P = append(byP2P, Item{T: "d", I: i})
+			} else {
+				sc.DataDA[i] = uint64(1 + r.Intn(K))
+			}
+		}
+	}
+	for _, it := range byP2P {
+		if r.Intn(2) == 0 {
+			sc.P2PFirst = append(sc.P2PFirst, it)
+		} else {
+			sc.P2PThen = append(sc.P2PThen, it)
+		}
+	}
+	var full []uint64 // DA heights that carry blobs
+	seen := map[uint64]bool{}
+	for i := 0; i < nb; i++ {
+		for _, h := range []uint64{sc.HdrDA[i], sc.DataDA[i]} {
+			if h > 0 && !seen[h] {
+				seen[h] = true
+				full = append(full, h)
+			}
+		}
+	}
+	sortU64(full)
+	var top uint64
+	if len(full) > 0 {
+		top = full[len(full)-1]
+	}
+	class := c % NumDAErrClasses
+	site := []string{"ids", "get", "ids"}[(c/NumDAErrClasses)%3]
+	hang := class == DAErrDeadlineCtx && (c/NumDAErrClasses)%3 == 2
+	for k := 1 + r.Intn(3); k > 0 && len(full) > 0; k-- {
+		h := full[r.Intn(len(full))]
+		if k > 1 && r.Intn(3) == 0 {
+			h = uint64(r.Intn(int(top) + 1)) // any height that exists, empty ones too
+		}
+		if len(sc.Faults[h]) > 0 {
+			continue
+		}
+		n := 1 + r.Intn(3)
+		if r.Intn(10) < 3 {
+			n = 9 + r.Intn(4)
+		}
+		hangs := 0
+		for ; n > 0; n-- {
+			f := DAFault{Site: site, Class: class}
+			if r.Intn(5) >= 3 {
+				f = DAFault{Site: []string{"ids", "get"}[r.Intn(2)], Class: r.Intn(NumDAErrClasses)}
+			} else if hang && hangs < 2 {
+				f = DAFault{Site: "hang", Class: DAErrDeadlineCtx}
+				hangs++
+			}
+			sc.Faults[h] = append(sc.Faults[h], f)
+		}
+	}
+	if r.Intn(4) == 0 {
+		sc.StopAt = 2 + r.Intn(nb-1)
+	}
 	sc.Crash = r.Intn(2) == 0
 	return sc
 }
